@@ -75,10 +75,10 @@ def sample(rows, tier, seed):
     dimensions, noise sizes and grids."""
     rng = random.Random(seed)
     quick = tier == "quick"
-    n_exact = 330 if quick else 4000
-    n_interp = 160 if quick else 1500
-    n_noisy = 100 if quick else 400
-    n_out = 50 if quick else 200
+    n_exact = 500 if quick else 5000
+    n_interp = 240 if quick else 2500
+    n_noisy = 200 if quick else 800
+    n_out = 100 if quick else 400
     kind = lambda k: [r for r in rows if r["kind"] == k]
     out = _stratified(rng, kind("exact"),
                       lambda r: (r["ty"], r["r"], r["c"], r["grid"],
@@ -89,6 +89,9 @@ def sample(rows, tier, seed):
     out += _stratified(rng, kind("few"),
                        lambda r: (r["ty"], r["r"], r["c"], r["grid"]),
                        60 if quick else 400)
+    out += _stratified(rng, kind("det"),
+                       lambda r: (r["ty"], r["grid"], r["st"] == 0),
+                       64 if quick else 600)
     plan = {}
     for ty in TYPES:
         rn = [r for r in rows if r["kind"] == "noisy" and r["ty"] == ty]
